@@ -13,11 +13,13 @@ VARIABLES kind, s, tr, inbox, dl, id
 vars == <<kind, s, tr, inbox, dl, id>>
 
 IdU == {"mine", "other", "other2"}
+Stale(n) == [i \in 1..n |-> IF i % 2 = 1 THEN "other" ELSE "other2"]
 Inboxes == UNION { [1..n -> IdU] : n \in 0..4 }
+             \cup { Stale(n) \o <<"mine">> : n \in {8, 9, 10, 16} } \cup { Stale(n) : n \in {8, 9, 10, 16} }      \* no bound on the skipping
 
 Init ==
   \/ kind = "stream" /\ s = SInit /\ tr = "stream" /\ inbox = <<>> /\ dl = 0 /\ id = IdInit
-  \/ kind = "id" /\ s = SInit /\ tr \in {"stream", "dgram"} /\ inbox \in Inboxes /\ dl \in 0..4 /\ dl <= Len(inbox) /\ id = IdInit
+  \/ kind = "id" /\ s = SInit /\ tr \in {"stream", "dgram"} /\ inbox \in Inboxes /\ dl \in (0..4) \cup {Len(inbox) - 1, Len(inbox)} /\ dl >= 0 /\ dl <= Len(inbox) /\ id = IdInit
 
 StreamNext ==
   \/ \E n \in Sizes : CanWrite(s) /\ s.next <= MaxFrames /\ s' = WriteFrame(s, n)
